@@ -18,6 +18,17 @@ judged by the direct oracle.
 * field by field with the record computed by the Lean model (`Model/C16.lean`, `Driver/C16.lean`),
   symbols resolved on the real objects (circuit by matrix, post-selection by evaluation on states);
 * directly with the user's own objects (the oracle that decides "violation").
+
+Extension (`Model/C16Mat.lean`, `Model/C16Heap.lean`):
+* the circuit as a MATRIX — the four circuit-changing calls are sent to the driver with the structure of the user's
+  object (elementary components with ids, offsets), together with the own matrix of every elementary component (fresh
+  objects, current parameter values, exact dyadic rationals); the driver answers with the exact matrix of the model's
+  component list after every payload generation / job creation and the circuit of the deserialised payload is compared
+  with it (`matrix_differs`);
+* a job's request and the objects it shares — jobs are created, the user then changes the photon filter / parameters /
+  iterations, creates other jobs, and only then executes: the request received must be the one of creation time
+  (`"aliased": false` = the repaired code; direct oracle `job-request-not-as-created`);
+* an input state left behind by a later `add_herald` is generated on purpose and counted (`stale-input-*`).
 """
 from __future__ import annotations
 
@@ -154,6 +165,11 @@ def sym_names(spec):
     return [sym[1] for sym in spec.get("sym", [])]
 
 
+def test_value(name):
+    """the value a variable parameter the user has not set gets on both sides of a matrix comparison"""
+    return 0.37 + 0.11 * (sum(ord(ch) for ch in name) % 17)
+
+
 def numeric_unitary(circ):
     """Matrix of a circuit; variable parameters (same names on both sides) get fixed test values."""
     params = circ.get_parameters()
@@ -161,8 +177,18 @@ def numeric_unitary(circ):
         circ = circ.copy()
         for p in circ.get_parameters():
             if p.is_variable and not p.defined:
-                p.set_value(0.37 + 0.11 * (sum(ord(ch) for ch in p.name) % 17))
+                p.set_value(test_value(p.name))
     return np.array(circ.compute_unitary(), dtype=complex)
+
+
+def sym_leaf_matrix(sym, values):
+    """own matrix of one symbolic elementary component of a spec (`PS(P(name))` / `BS(theta=P(name))`) under the
+    values the user has set so far (test value otherwise) — a fresh object"""
+    import perceval as pcvl
+    name = sym[1]
+    v = values[name] if (values and name in values) else test_value(name)
+    comp = pcvl.BS(theta=v) if (len(sym) > 2 and sym[2] == "BS") else pcvl.PS(v)
+    return np.array(comp.compute_unitary(use_symbolic=False), dtype=complex)
 
 
 def build_noise(spec):
@@ -408,8 +434,8 @@ def gen_ops(rng, tr, n_ops):
           "njobs": 0, "used": set(), "stale": set(), "nsym": 0}
 
     def stale_all():
-        # a created job aliases processor._parameters and the sampler's iterator list: jobs created before a
-        # change of either are never executed by the generator (not modelled)
+        # jobs created before a change of processor._parameters or of the sampler's iterator list: executing one of
+        # them afterwards is a case of its own (`changed_then_send`), also met by chance in `execute_op`
         st["stale"] = set(range(st["njobs"]))
 
     def config_op():
@@ -624,9 +650,11 @@ def gen_ops(rng, tr, n_ops):
             return st["ms"] + rng.choice([-1, 0, 1, 1])
         return gen_int_val(rng)
 
-    def execute_op():
-        cand = [j for j in range(st["njobs"]) if j not in st["used"] and j not in st["stale"]]
-        if st["used"] and rng.random() < 0.1:
+    def execute_op(job=None):
+        cand = [j for j in range(st["njobs"]) if j not in st["used"] and (j not in st["stale"] or rng.random() < 0.3)]
+        if job is not None:
+            j = job
+        elif st["used"] and rng.random() < 0.1:
             j = rng.choice(sorted(st["used"]))     # second execution of a job (refused, or dropped when it was sent)
         elif not cand:
             return job_op()
@@ -660,10 +688,47 @@ def gen_ops(rng, tr, n_ops):
         how = "async" if rng.random() < 0.8 else rng.choice(["sync", "call"])
         return {"op": "execute", "job": j, "args": args, "kw": kw, "net": net, "how": how}
 
-    def execute_ops():
+    def changed_then_send():
+        """a job is created, the user then changes the processor's parameters (photon filter, set_parameter,
+        clear_parameters) and / or the sampler's iterations (more iterations, clear_iterations), possibly creates
+        another job, and only then executes the first one: the request sent must be the one of creation time"""
+        out = []
+        if rng.random() < 0.5:
+            out.append(iters_op())            # the job to come has iterations of its own
+        out.append(job_op())
+        first = st["njobs"] - 1
+        for _ in range(rng.choice([1, 1, 2])):
+            r = rng.random()
+            if r < 0.25:
+                n = rng.choice([0, 1, 2, 3, 5])
+                st["filt"] = True
+                stale_all()
+                out.append({"op": "filter", "n": n})
+            elif r < 0.4:
+                stale_all()
+                out.append({"op": "param", "k": rng.choice(["thresholded", "foo", "mitigation", "bar"]),
+                            "v": rng.choice([None, 0, 1, 7, "on", "x"])})
+            elif r < 0.52:
+                stale_all()
+                out.append({"op": "clear_params"})
+            elif r < 0.72:
+                out.append(iters_op())
+            else:
+                stale_all()
+                out.append({"op": "clear_iters"})
+                if rng.random() < 0.5:
+                    out.append(iters_op())
+        if rng.random() < 0.4:
+            out.append(job_op())
+            if rng.random() < 0.5:
+                out.extend(execute_ops())
+        out.extend(execute_ops(first))
+        return out
+
+    def execute_ops(job=None):
         """an execution; when the network failed on its creation request, often a second execution of the same job
         (must be refused: a request whose answer was lost is never sent again)"""
-        op = execute_op()
+        op = execute_op(job)
         out = [op]
         if op["op"] == "execute" and op["net"] != "ok" and rng.random() < 0.6:
             out.append(dict(op, net=rng.choice(["ok", "ok", "lost"]), how=rng.choice(["async", "async", "sync"])))
@@ -676,6 +741,16 @@ def gen_ops(rng, tr, n_ops):
         ops.append({"op": "filter", "n": rng.choice([0, 0, 1, 2, 3])})
     for _ in range(n_cfg):
         ops.append(config_op() if rng.random() < 0.9 else circuit_op())
+    if tr["remote_built"] and st["m"] > 1 and rng.random() < 0.12:
+        # an input state, then a herald (expecting what the state has there, or not): the stored state lags behind
+        # the heralds and is transmitted as it is; the photon window decides on n_user + n_heralds
+        if not st["filt"]:
+            st["filt"] = True
+            ops.append({"op": "filter", "n": rng.choice([0, 1])})
+        st["inp"] = True
+        ops.append({"op": "with_input", "s": gen_state(rng, st["m"], rng.choice([2, 3]))})
+        ops.append(herald_op())
+        ops.append(dict(prepare_op(), inputless=False))
     if rng.random() < 0.2:
         ops.append(prepare_op())
     if rng.random() < 0.85:
@@ -698,6 +773,9 @@ def gen_ops(rng, tr, n_ops):
                 left -= 2
             elif r < 0.18:
                 ops.append(iters_op())
+                if rng.random() < 0.5 and not st["njobs"]:
+                    ops.extend(changed_then_send())
+                    left -= 2
             elif r < 0.19:
                 ops.append({"op": "clear_iters"})
             elif r < 0.28:
@@ -706,6 +784,9 @@ def gen_ops(rng, tr, n_ops):
                 ops.append(circuit_op())
             elif r < 0.40:
                 ops.append(sampler_op())
+            elif r < 0.52:
+                ops.extend(changed_then_send())
+                left -= 3
             else:
                 ops.append(job_op())
                 left -= 1
@@ -782,6 +863,11 @@ class Session:
         self.u_local0 = None
         self.circ_history = []     # circuits the processor held earlier in the session
         self.seen_payload = False  # a request has already been produced from this processor
+        # structure of the user's circuits for the model's matrix semantics: elementary components (leaves) get ids;
+        # what each denotes right now (fresh objects, current parameter values) is sent to the driver when it changes
+        self.leaf_reg = []         # id -> {"k", "fixed": matrix json} | {"k", "sym": sym spec} | {"k", "local": True}
+        self.env_sent = {}         # id -> last matrix sent (json text)
+        self.mat_ctx = {}          # lean op index -> what kind of circuit history the compared matrix has
         self.pending = set()       # what the user changed since the last request
         # what the user configured (direct oracle)
         self.intent = {"filter": None, "noise": None, "post": None, "input": None, "input_fresh": False,
@@ -801,6 +887,76 @@ class Session:
         self.posts.append(build_post(spec))
         return len(self.posts) - 1
 
+    # -- structure of circuits for the model's matrix semantics ----------------------------------
+    def reg_circuit(self, spec, symid):
+        """UC record (Model/C16Mat.lean) of a circuit spec: its elementary components in the order `build_circuit`
+        adds them, each registered as a leaf"""
+        leaves = []
+        for off, leaf in spec["leaves"]:
+            k = gens.leaf_width(leaf)
+            self.leaf_reg.append({"k": k, "fixed": gens.leaf_matrix_json(gens.build_leaf(leaf))})
+            leaves.append([off, len(self.leaf_reg) - 1, k])
+        for sym in spec.get("sym", []):
+            k = 2 if (len(sym) > 2 and sym[2] == "BS") else 1
+            self.leaf_reg.append({"k": k, "sym": sym})
+            leaves.append([sym[0], len(self.leaf_reg) - 1, k])
+        return {"m": spec["m"], "leaves": leaves, "sym": symid, "cparams": sym_names(spec)}
+
+    def local_matrix(self, values):
+        """matrix of the user's local processor under the parameter values set so far (fresh objects)"""
+        spec = self.scen["start"]
+        names = set(sym_names(spec["circ"])) if spec.get("base") == "circuit" else set()
+        if names & set(values):
+            saved = self.local_user_input
+            try:
+                return numeric_unitary(self.build_local(spec, values, None).experiment.unitary_circuit())
+            finally:
+                self.local_user_input = saved
+        return self.u_local0
+
+    def env_delta(self):
+        """[[leaf id, exact matrix]] for every leaf whose matrix is new or has changed since it was last sent"""
+        values = (self.cs or {}).get("values", {})
+        out = []
+        for i, ent in enumerate(self.leaf_reg):
+            if "fixed" in ent:
+                if i in self.env_sent:
+                    continue
+                js = ent["fixed"]
+            elif "sym" in ent:
+                js = core.mat(sym_leaf_matrix(ent["sym"], values).tolist())
+            else:
+                js = core.mat(np.array(self.local_matrix(values)).tolist())
+            key = json.dumps(js)
+            if self.env_sent.get(i) != key:
+                self.env_sent[i] = key
+                out.append([i, js])
+        return out
+
+    def want_matrix(self, lop):
+        """ask the model for the exact matrix of the processor's component list after this op"""
+        lop["env"] = self.env_delta()
+        lop["want"] = True
+        cs, it = self.cs or {}, self.intent
+        ctx = set()
+        if it["converted"] and not cs.get("direct"):
+            ctx.add("converted")
+            if "convert-heralds-inside" in self.flags:
+                ctx.add("converted-perm")
+        if cs.get("extra"):
+            ctx.add("after-add")
+            if it["converted"] and cs["base"][0] == "local":
+                ctx.add("converted-then-add")
+        if it["converted"] and cs.get("base", ("",))[0] == "remote":
+            ctx.add("converted-then-set-circuit")
+        if cs.get("base", ("",))[0] == "remote" and "set-circuit" in self.flags:
+            ctx.add("after-set-circuit")
+        if cs.get("values"):
+            ctx.add("retuned")
+        if it["heralds"]:
+            ctx.add("remote-heralds")
+        self.mat_ctx[len(self.lean_ops)] = ctx
+
     # -- start -----------------------------------------------------------------------------------
     def start(self):
         pcvl = self.pcvl
@@ -810,8 +966,9 @@ class Session:
             self.circs.append(numeric_unitary(circ))
             self.cs = {"base": ("remote", st["circ"]), "extra": [], "values": {}, "direct": True}
             nid = self.noise_id(st["noise"])
-            lop = {"op": "new_remote", "via_set": st["via_set"], "m": st["m"], "circ": 0,
-                   "cparams": sym_names(st["circ"]), "noise": nid}
+            lop = {"op": "new_remote", "via_set": st["via_set"], "c": self.reg_circuit(st["circ"], 0), "noise": nid}
+            if st["via_set"]:
+                self.flags.add("set-circuit")
             self.flags.add("remote-built")
 
             def do():
@@ -856,7 +1013,8 @@ class Session:
                  "input": None if inp is None else [int(x) for x in inp], "post": pid, "noise": nid,
                  "filter": p.experiment.min_photons_filter, "circ": 0,
                  "cparams": list(p.get_circuit_parameters().keys())}
-        lop = {"op": "convert", "fixed": True, "p": state}
+        self.leaf_reg.append({"k": p.circuit_size, "local": True})
+        lop = {"op": "convert", "p": state, "pcomps": [["leaf", 0, len(self.leaf_reg) - 1, p.circuit_size]]}
         self.flags.add("convert")
         if heralds:
             self.flags.add("convert-heralds")
@@ -1014,8 +1172,8 @@ class Session:
         k = op["op"]
         it = self.intent
         if k in ("filter", "param", "clear_params", "add_iters", "clear_iters"):
-            # a created job aliases processor._parameters and the sampler's iterator list (not modelled): jobs
-            # created before such a call are never executed (decided here, on what actually ran, not by the generator)
+            # the calls that change processor._parameters or the sampler's iterator list: a job created before and
+            # executed after one of them must still send the request it had when it was created
             self.epoch += 1
         if k == "with_input":
             def do():
@@ -1040,9 +1198,12 @@ class Session:
             self.run_op({"op": k, "mode": op["mode"], "expected": op["expected"]}, do)
         elif k == "filter":
             def do():
+                before = dict(rp.parameters)
                 rp.min_detected_photons_filter(op["n"])
                 it["filter"] = op["n"]
                 self.pending.add("filter")
+                if dict(rp.parameters) != before:
+                    self.touch_jobs("filter")
                 if op["n"] == 0:
                     self.flags.add("filter-zero")
                 return {"done": True}
@@ -1073,12 +1234,16 @@ class Session:
             self.run_op({"op": k, "n": nid}, do)
         elif k == "param":
             def do():
+                before = dict(rp.parameters)
                 rp.set_parameter(op["k"], op["v"])
+                if dict(rp.parameters) != before:
+                    self.touch_jobs("param")
                 return {"done": True}
             self.run_op({"op": k, "k": op["k"], "v": op["v"]}, do)
         elif k == "clear_params":
             def do():
                 rp.clear_parameters()
+                self.touch_jobs("clear_params")
                 return {"done": True}
             self.run_op({"op": k}, do)
         elif k in ("retune", "set_circuit", "add_comp"):
@@ -1105,7 +1270,7 @@ class Session:
                 spec = op["circ"]
                 circ = build_circuit(spec, keep=keep)
                 cand = {"base": ("remote", spec), "extra": [], "values": dict(cs["values"]), "direct": True}
-                lop = {"op": k, "checked": op["via"] == "rp", "size": spec["m"], "cparams": sym_names(spec)}
+                lop = {"op": k, "checked": op["via"] == "rp", "c": self.reg_circuit(spec, None)}
                 kind = "set-circuit" if op["via"] == "rp" else "exp-set-circuit"
 
                 def real():
@@ -1121,7 +1286,7 @@ class Session:
                     return False
                 circ = build_circuit(spec, keep=keep)
                 cand = dict(cs, extra=cs["extra"] + [(k0, spec)], direct=True)
-                lop = {"op": k, "cparams": sym_names(spec)}
+                lop = {"op": k, "k": k0, "c": self.reg_circuit(spec, None)}
                 kind = "add-comp"
 
                 def real():
@@ -1131,7 +1296,10 @@ class Session:
             else:
                 u = self.circuit_matrix(cand)
             self.circs.append(u)
-            lop["circ"] = len(self.circs) - 1
+            if "c" in lop:
+                lop["c"]["sym"] = len(self.circs) - 1
+            else:
+                lop["circ"] = len(self.circs) - 1
 
             def do():
                 real()
@@ -1140,6 +1308,8 @@ class Session:
                 self.circ_history.append((it["circ"], it.get("circ_direct", False)))
                 it.update(circ=u, circ_direct=cand["direct"])
                 self.pending.add(kind)
+                if kind in ("set-circuit", "exp-set-circuit"):
+                    self.flags.add("set-circuit")
                 if it["converted"]:
                     self.flags.add("circuit-change-on-converted")
                 return {"done": True}
@@ -1155,8 +1325,11 @@ class Session:
                     if not (op["circuitless"] and kind in CIRCUIT_CHANGES) and not (op["inputless"] and kind == "input"):
                         self.flags.add(kind + "-between-payloads")
                 return {"payload": pl}
-            self.run_op({"op": k, "cmd": op["cmd"], "circuitless": op["circuitless"], "inputless": op["inputless"],
-                         "kw": [[a, b] for a, b in kw.items()]}, do)
+            lop = {"op": k, "cmd": op["cmd"], "circuitless": op["circuitless"], "inputless": op["inputless"],
+                   "kw": [[a, b] for a, b in kw.items()]}
+            if not op["circuitless"]:
+                self.want_matrix(lop)
+            self.run_op(lop, do)
             if "err" in self.outs[-1]:
                 self.check_rejection(op)
                 if self.outs[-1]["err"] not in REFUSALS:
@@ -1217,6 +1390,8 @@ class Session:
                 return {"done": True}
             self.run_op({"op": k, "its": lean_its}, do)
             n_acc = self.sampler.n_iterations - n0
+            if n_acc > 0:
+                self.touch_jobs("add_iters")
             for ri, v in zip(real_its[:n_acc], verdicts[:n_acc]):
                 if v is None and "input_state" in ri and "circuit_params" in ri:
                     self.flags.add("iter-accepted:input+cparams")
@@ -1239,6 +1414,8 @@ class Session:
                 return False
 
             def do():
+                if self.sampler.n_iterations:
+                    self.touch_jobs("clear_iters")
                 self.sampler.clear_iterations()
                 it["sampler_its"] = []
                 it["sampler_its_bad"] = []
@@ -1248,19 +1425,23 @@ class Session:
             if self.sampler is None:
                 return False
 
+            lop = {"op": k, "method": op["method"]}
+            self.want_matrix(lop)
+
             def do():
                 job = getattr(self.sampler, op["method"])
+                # [10] index of this op (the model's matrix of the circuit serialised now), [11] what the user did to
+                # the processor's parameters / the sampler's iterations since, [12] both as they are right now
                 self.jobs.append([job, False, op["method"], list(it["sampler_its"]), it["max_shots"], self.snapshot(),
-                                  self.epoch, self.request_made(), list(it["sampler_its_bad"]), False])
+                                  self.epoch, self.request_made(), list(it["sampler_its_bad"]), False,
+                                  len(self.lean_ops), set(), copy.deepcopy(dict(rp.parameters)), self.sampler])
                 return {"done": True}
-            self.run_op({"op": k, "method": op["method"]}, do)
+            self.run_op(lop, do)
         elif k == "execute":
             # the model's job index counts successfully created jobs
             if op["job"] >= len(self.jobs) or self.jobs[op["job"]][1]:
                 return False
             rec = self.jobs[op["job"]]
-            if rec[6] != self.epoch:
-                return False
             kw = {a: b for a, b in op["kw"]}
             net = op.get("net", "ok")
             how = op.get("how", "async")
@@ -1305,6 +1486,10 @@ class Session:
                         self.oracle_failures.append(("job-name", f"job_name {sent.get('job_name')} != {rec[2]}"))
                 if got:
                     self.flags.add("execute-sent")
+                    for kind in rec[11]:
+                        self.flags.add("sent-after:" + kind)
+                    if rec[6] != self.epoch:
+                        self.flags.add("sent-after-change")
                     for kind in rec[7]:
                         self.flags.add(kind + "-between-payloads")
                         self.flags.add(kind + "-between-jobs")
@@ -1385,6 +1570,13 @@ class Session:
                     return ("cparams-name", f"iterated circuit parameter {name} does not exist in the user's circuit "
                                             f"(parameters: {sorted(names)})")
         return None
+
+    def touch_jobs(self, kind):
+        """the user has just changed the processor's parameters / the sampler's iterations (`kind`): remembered for
+        every job created before and not yet sent"""
+        for rec in self.jobs:
+            if not rec[1] and (kind in ("filter", "param", "clear_params") or rec[13] is self.sampler):
+                rec[11].add(kind)
 
     def request_made(self):
         """A request (payload) has just been built from the processor: what the user changed since the previous one."""
@@ -1489,6 +1681,12 @@ class Session:
                 full = [int(x) for x in s]
                 if full != it["rp_input"]:
                     self.fail("payload-input", f"input sent {full} != processor input {it['rp_input']}")
+                if not it["input_fresh"]:
+                    # an input state left behind by a later add_herald: transmitted as stored (checked just above);
+                    # the photon window was enforced on n_user + n_heralds (model vs code: accepted / refused)
+                    self.flags.add("stale-input-sent")
+                    if any(i >= len(full) or full[i] != v for i, v in sent_heralds.items()):
+                        self.flags.add("stale-input-mismatch")
                 if it["input_fresh"]:
                     moi = [x for i, x in enumerate(full) if i not in sent_heralds]
                     if moi != it["input"]:
@@ -1499,7 +1697,18 @@ class Session:
             self.fail("payload-input", f"no input configured but input_state sent: {pl['input_state']!r}")
         # filter
         prm = pl.get("parameters")
-        if "parameters" not in kw_keys or isinstance(prm, dict):
+        reshaped = False
+        if jobrec is not None and jobrec[11] and isinstance(prm, dict) and prm != jobrec[12]:
+            # the request of a job must be the one built when the job was created: here its `parameters` are what the
+            # processor holds NOW, next to the circuit / input / noise / post-selection of creation time
+            reshaped = True
+            self.fail("job-request-not-as-created",
+                      f"a job was created when the processor's parameters were {jobrec[12]!r}; the user then called "
+                      f"{sorted(jobrec[11])} and executed the job: the request received carries parameters {prm!r} "
+                      f"(send-time values) with the circuit and input state of creation time")
+        if reshaped:
+            pass
+        elif "parameters" not in kw_keys or isinstance(prm, dict):
             if not isinstance(prm, dict) or "min_detected_photons" not in prm or \
                     prm["min_detected_photons"] != it["filter"] or it["filter"] is None:
                 self.fail("payload-filter", f"filter configured {it['filter']!r}, parameters sent {prm!r}")
@@ -1534,9 +1743,16 @@ class Session:
                 self.fail("clamp", f"max_samples {ms} > max_shots {pl['max_shots']} in a sent payload")
             its = jobrec[3]
             got = pl.get("iterator")
+            touched = bool(jobrec[11] & {"add_iters", "clear_iters"})
             if its:
                 if not isinstance(got, list) or len(got) != len(its) or any(not self.iter_equal(a, b) for a, b in zip(got, its)):
-                    self.fail("payload-iterator", f"iterator sent {got!r} != configured {its!r}")
+                    if touched:
+                        self.fail("job-request-not-as-created",
+                                  f"a job was created with {len(its)} iteration(s); the user then called "
+                                  f"{sorted(jobrec[11])} and executed the job: the request received carries "
+                                  f"{len(got) if isinstance(got, list) else got!r} iteration(s)")
+                    else:
+                        self.fail("payload-iterator", f"iterator sent {got!r} != configured {its!r}")
                 else:
                     self.flags.add("iterator-sent")
                     if any("input_state" in a and "circuit_params" in a for a in its):
@@ -1617,7 +1833,7 @@ class Session:
     def lean_request(self):
         pf = self.scen["pf"]
         return {"pf": {k: pf.get(k) for k in ("max_modes", "min_modes", "max_photons", "min_photons")} | {
-            "commands": pf["commands"]}, "ops": self.lean_ops}
+            "commands": pf["commands"]}, "aliased": False, "ops": self.lean_ops}
 
 
 # ------------------------------------------------------------------------------------------------
@@ -1717,6 +1933,28 @@ def diff_state(real, model):
     return bad
 
 
+def matrix_differs(ses: Session, rep, at, pl, where):
+    """The circuit of a deserialised payload against the EXACT matrix of the model's component list after op `at`
+    (the op that serialised the circuit: the payload generation, or the creation of the job).  -> None or text"""
+    from perceval.components import ACircuit
+    mats = rep.get("mats") or []
+    m = mats[at] if at < len(mats) else None
+    c = pl.get("circuit")
+    if m is None or not isinstance(c, ACircuit):
+        return f"{where}: no matrix to compare (model {'none' if m is None else 'ok'}, payload {type(c).__name__})"
+    want = np.array(core.unmat(m), dtype=complex)
+    got = numeric_unitary(c)
+    if want.shape != got.shape:
+        return f"{where}: the circuit sent has {got.shape[0]} modes, the model's {want.shape[0]}"
+    d = float(np.max(np.abs(want - got))) if want.size else 0.0
+    if d > TOL:
+        return f"{where}: the matrix of the circuit sent differs from the model's exact matrix by {d:.3g}"
+    ses.flags.add("matrix-compared")
+    for c in ses.mat_ctx.get(at, ()):
+        ses.flags.add("matrix:" + c)
+    return None
+
+
 def compare(ses: Session, rep):
     """-> list of (kind, signature, what). Direct-oracle failures come first."""
     res = [("violation", sig, what) for sig, what in ses.oracle_failures]
@@ -1724,6 +1962,15 @@ def compare(ses: Session, rep):
         res.append(("broken", "lean-driver-rejects", f"driver refused the request: {rep['err']}"))
         return res
     outs, states = rep["outs"], rep["states"]
+
+    def matrix_check(at, pl, where, kind):
+        why = matrix_differs(ses, rep, at, pl, where)
+        if why is not None:
+            if not any(k == "violation" for k, *_ in res):
+                res.append(("broken", "model-vs-code:circuit-matrix", why))
+            return False
+        ses.flags.add("matrix:" + kind)
+        return True
     for i, (lop, ro, rs) in enumerate(zip(ses.lean_ops, ses.outs, ses.states)):
         mo, ms = outs[i], states[i]
         where = f"op {i} {lop['op']}"
@@ -1752,6 +1999,8 @@ def compare(ses: Session, rep):
                 return res
             if "received" in ro:
                 r = mo["received"]
+                if not matrix_check(ses.jobs[lop["job"]][10], ro["received"]["payload"], where, "job"):
+                    return res
                 bad = diff_payload(ses, ro["received"]["payload"], r["payload"], r["iterator"])
                 if ro["received"]["job_name"] != r["job_name"]:
                     bad.append("job_name")
@@ -1761,6 +2010,8 @@ def compare(ses: Session, rep):
                                     f"{where}: received fields differ: {bad}"))
                     return res
         elif "payload" in ro:
+            if not lop["circuitless"] and not matrix_check(i, ro["payload"], where, "prepare"):
+                return res
             bad = diff_payload(ses, ro["payload"], mo.get("payload", []))
             if bad:
                 if not any(k == "violation" for k, *_ in res):   # else: the direct oracle already explains it
@@ -1774,6 +2025,8 @@ def compare(ses: Session, rep):
                     res.append(("broken", "model-vs-code:execute:outcome", f"{where}: model sent "
                                 f"{'nothing' if s is None else 'a request'}, implementation "
                                 f"{'nothing' if ro['sent'] is None else 'a request'}"))
+                return res
+            if not matrix_check(ses.jobs[lop["job"]][10], ro["sent"]["payload"], where, "job"):
                 return res
             bad = diff_payload(ses, ro["sent"]["payload"], s["payload"], s["iterator"])
             if ro["sent"]["job_name"] != s["job_name"]:
@@ -1938,16 +2191,28 @@ def run(chk: core.Check):
                 "state breaking the photon window / the size, unknown or non-numeric circuit parameter) alone and next to "
                 "every other key in either order, job creation for 3 methods, execute_async / execute_sync / __call__ with "
                 "positional/keyword arguments while the fake network answers, loses the answer after delivery, is "
-                "unreachable, times out on connection or refuses); distinct = distinct (start, heralds, constraints, commands, op "
+                "unreachable, times out on connection or refuses; jobs executed after the user changed the filter / "
+                "parameters / iterations or created other jobs; an input state left behind by a later add_herald; the "
+                "circuit of every payload compared with the exact matrix of the model's component list); distinct = "
+                "distinct (start, heralds, constraints, commands, op "
                 "sequence) signatures; non-trivial = at least one payload was produced and compared")
     chk.assumptions = [
-        "circuits, post-selections and noise models are symbols in the model; the correspondence resolves them on the "
-        "real objects (matrix equality at 1e-9, post-selection evaluated on all states with <=2 photons per mode)",
-        "wiring of a composed processor (permutation of herald modes) is taken from C10; here only the relabelling "
-        "reported by the model is checked against the matrix actually sent",
-        "no change of processor._parameters (filter, set_parameter, clear_parameters) or of the sampler's iterator list "
-        "between job creation and execute_async: the payload aliases both; the harness drops such executions on what "
-        "actually ran (not modelled)",
+        "post-selections and noise models are symbols in the model; the correspondence resolves them on the real "
+        "objects (post-selection evaluated on all states with <=2 photons per mode). The circuit is compared twice: "
+        "as a symbol with the model's relabelling (user's matrix recomputed with numpy from the scenario's specs) and "
+        "as a MATRIX: the driver computes, exactly over Q[i], the matrix of the model's component list (nested "
+        "circuit for add, unpacked circuit for set_circuit, PERM / components / inverted PERM for a converted local "
+        "processor) from the own matrices of the user's elementary components (fresh objects, exact dyadic values "
+        "of the floats Perceval computes for ONE component, current parameter values) and the circuit of every "
+        "payload is compared with it at 1e-9; a converted local processor is one elementary component of the model "
+        "(its own matrix: C10's subject); Experiment's simplify() is assumed not to change the matrix",
+        "the request of a job is expected to be the one built when the job was created (repaired code, "
+        "fixes/C16-job-snapshot.diff): the user changes the photon filter / set_parameter / clear_parameters / adds "
+        "or clears iterations between job creation and execution, in any interleaving with other jobs, and the "
+        "request received is compared with the creation-time one (direct oracle 'job-request-not-as-created')",
+        "an input state left behind by a later add_herald is OUTSIDE the statement (the processor the user built "
+        "holds a state of an obsolete layout, the local simulation reads the same state): the oracle only requires "
+        "that it is transmitted as stored; acceptance / refusal by the photon window is compared with the model",
         "a job is executed at most once after a successful send (double execute_async is C17's finding); a job whose "
         "creation request failed on the network IS executed again (must be refused, nothing re-sent)",
         "the network is a scripted fake at the rpc_handler.create_job level (real requests exception classes); every "
@@ -1985,7 +2250,17 @@ def run(chk: core.Check):
                              "iter-accepted:input+cparams", "iterator-sent:input+cparams",
                              # the network fails on the creation request; other execution entry points
                              "execute-answer-lost", "execute-not-delivered", "execute-sync",
-                             "execute-refused-after-failed-transport"]
+                             "execute-refused-after-failed-transport",
+                             # the circuit as a matrix: exact matrix of the model's component list vs the circuit sent
+                             "matrix-compared", "matrix:prepare", "matrix:job", "matrix:converted",
+                             "matrix:converted-perm", "matrix:converted-then-add",
+                             "matrix:converted-then-set-circuit", "matrix:after-add", "matrix:after-set-circuit",
+                             "matrix:retuned", "matrix:remote-heralds",
+                             # an input state left behind by a later add_herald (transmitted as stored)
+                             "stale-input-sent", "stale-input-mismatch",
+                             # the user changes the parameters / the iterations between job creation and execution
+                             "sent-after-change", "sent-after:filter", "sent-after:param",
+                             "sent-after:clear_params", "sent-after:add_iters", "sent-after:clear_iters"]
     chk.lean = core.LeanDriver("C16")
     for scen in load_corpus():
         handle(chk, scen, corpus=True)
